@@ -37,7 +37,7 @@ theorem copyLoop_ok (g : Cfg) (hg : NoFail g) (f : Nat) (r : R) (d : Bytes) (w :
 theorem readCopy_ok (g : Cfg) (hg : NoFail g) (r : R) (k : RKind) (data : Bytes) :
     ∃ r', readCopy g r k data = (r', .ok data.length) ∧ r'.wire.flatten = r.wire.flatten ++ data ∧ SameCtl r r' := by
   unfold readCopy
-  by_cases h1 : (k == RKind.limited && data.length == 0) = true
+  by_cases h1 : ((k == RKind.limited || k == RKind.limitedMem) && data.length == 0) = true
   · rw [if_pos h1]
     have hd : data = [] := by
       have := (Bool.and_eq_true _ _ ▸ h1).2
@@ -47,7 +47,7 @@ theorem readCopy_ok (g : Cfg) (hg : NoFail g) (r : R) (k : RKind) (data : Bytes)
     subst hd
     exact ⟨r, rfl, by simp, rfl, rfl, rfl, rfl, rfl, rfl, rfl, rfl⟩
   · rw [if_neg h1]
-    by_cases h2 : (g.sendfile && k != RKind.plain) = true
+    by_cases h2 : (g.sendfile && (k == RKind.file || k == RKind.limited)) = true
     · rw [if_pos h2]
       unfold sendDirect
       simp only [send_ok g hg, ↓reduceIte]
